@@ -285,9 +285,10 @@ def ref_auth_param(s, a, b):
     return name, bytes(s[i:j]), i, j - i, False
 
 
-def ref_digest(s):
+def ref_digest(s, dups=False):
     """s = the text after the scheme and its separator.  Returns None when s is not a
-    #auth-param list of the grammar or repeats a parameter; else dict name -> (sem, raw_start, raw_len, quoted_form)"""
+    #auth-param list of the grammar or repeats a parameter (dups=True: the last occurrence counts instead);
+    else dict name -> (sem, raw_start, raw_len, quoted_form)"""
     if any(c == 0 for c in s):
         return None
     spans = ref_split_elements(s)
@@ -304,7 +305,7 @@ def ref_digest(s):
         p = ref_auth_param(s, a, b)
         if p is None:
             return None
-        if p[0] in res:
+        if p[0] in res and not dups:
             return None
         res[p[0]] = p[1:]
     return res
@@ -467,6 +468,11 @@ def oracle_dparse(s, line):
     ref = ref_digest(s)
     if ref is None:
         return None
+    return compare_with_ref(got, ref)
+
+
+def compare_with_ref(got, ref):
+    """the parser's answer `got` (parse_dparse_line) against the reference reader's `ref` for an in-grammar string"""
     if got is None:
         return "in-grammar credentials rejected"
     for k, name in enumerate(KNOWN):
@@ -588,6 +594,63 @@ def oracle_find(words, line):
     if line != exp:
         return "header lookup: expected '%s', got '%s'" % (exp, line)
     return None
+
+
+def first_auth_value(hs, scheme):
+    """hs = [(kind, name, value)]: value of the first header of kind HEADER named Authorization (caseless)
+    whose value is the scheme token followed by SP / HT / nothing"""
+    for kind, name, val in hs:
+        if kind == 1 and name.lower() == b"authorization" and ref_scheme(val, scheme) is not None:
+            return val
+    return None
+
+
+def oracle_headers(op, hs, line):
+    """several request headers: the first matching header alone decides"""
+    if op == "b":
+        v = first_auth_value(hs, b"Basic")
+        if v is None:
+            return None if line == "basic none" else "Basic credentials reported without a Basic Authorization header: " + line
+        return oracle_basic(v, line)
+    v = first_auth_value(hs, b"Digest")
+    if v is None:
+        return None if line.startswith("info none") else "Digest information reported without a Digest Authorization header"
+    return oracle_info(v, line)
+
+
+def oracle_layout(value, line):
+    """every returned pointer refers to bytes inside the allocated block; regions (strings with NUL) are disjoint"""
+    for part in line.split(" | "):
+        w = part.split()
+        if len(w) < 2 or w[1] in ("none", "null"):
+            continue
+        if not w[1].startswith("alloc="):
+            return "unparsable layout line: " + part
+        alloc = int(w[1][6:])
+        regs = []
+        for t in w[2:]:
+            tag, _, v = t.partition("=")
+            if v == "-":
+                continue
+            o, _, ln = v.partition(":")
+            o, ln = int(o), int(ln)
+            ext = ln if tag == "uhb" else ln + 1
+            if o < 0 or o + ext > alloc:
+                return "%s: region %d+%d outside the %d allocated bytes" % (tag, o, ext, alloc)
+            regs.append((o, o + ext, tag))
+        regs.sort()
+        for (a0, a1, ta), (b0, b1, tb) in zip(regs, regs[1:]):
+            if b0 < a1 and a1 > a0 and b1 > b0:
+                return "regions %s and %s overlap" % (ta, tb)
+    rest = ref_scheme(value, b"Digest")
+    ref = ref_digest(rest) if rest is not None else None
+    if ref is not None and line.startswith("lay none"):
+        return "in-grammar credentials rejected by the information API"
+    return None
+
+
+def parse_hdr_words(ws):
+    return [(int(ws[i]), unhx(ws[i + 1]), unhx(ws[i + 2])) for i in range(0, len(ws), 3)]
 
 
 def oracle_bparse(s, line):
@@ -864,6 +927,33 @@ def find_cases(rng, n):
         yield ["find", rng.choice(["b", "d"]), "1" if rng.random() < 0.9 else "0"] + hs
 
 
+def header_list_cases(rng, sems, n):
+    """request header lists for the two API entry points: several Authorization headers of both schemes (valid,
+    broken, near-miss scheme tokens), other names and kinds around them"""
+    names = [b"Authorization", b"authorization", b"AUTHORIZATION", b"Authorizatio", b"Proxy-Authorization", b"Host"]
+    for _ in range(n):
+        hs = []
+        for _ in range(rng.randint(1, 5)):
+            kind = rng.choice([1, 1, 1, 1, 1, 1, 1, 2, 8])
+            nm = rng.choice(names[:3] * 4 + names)
+            r = rng.random()
+            if r < 0.35:
+                sem, s, _ = rng.choice(sems)
+                val = rnd_case(rng, b"digest", rng.choice(["mixed", "upper", "lower"])).replace(b"d", b"D", 1) if rng.random() < 0.3 else b"Digest"
+                val += rng.choice([b" ", b" ", b"\t"]) + s
+            elif r < 0.5:
+                val = b"Digest " + rnd_wild(rng)
+            elif r < 0.8:
+                val = b"Basic " + base64.b64encode(rnd_bytes(rng, b"abcXYZ09", 1, 6) + b":" + rnd_bytes(rng, b"abc:XYZ09", 0, 6))
+                if rng.random() < 0.2:
+                    val += rng.choice([b" x", b"=", b","])
+            else:
+                val = rng.choice([b"Digest", b"Basic", b"Digestx nc=1", b"Basicx QTpC", b"Diges nc=1", b"Negotiate abc", b"", b"Digest\tnc=1",
+                                  b"Basic\tQTpC", b"digest nc=1;", b"BASIC QTpC QTpC"])
+            hs.append((kind, nm, val))
+        yield hs
+
+
 CORRUPT = b"\"\\,;= \x00x\x80=\t*"
 
 
@@ -876,7 +966,14 @@ def _sig(s):
 class Spec:
     props_module = "Mhd.Props.C14"
     lean_targets = ["Mhd.Props.C14", "drv_auth"]
-    required_theorems = ["Mhd.C14.digest_roundtrip", "Mhd.C14.digest_rendering_invariant", "Mhd.C14.digest_roundtrip_full",
+    required_theorems = ["Mhd.C14.corruption_local_quoted", "Mhd.C14.corruption_rejected_quoted_nul", "Mhd.C14.corruption_local_token",
+                         "Mhd.C14.corruption_rejected_token", "Mhd.C14.corruption_structural_witness",
+                         "Mhd.C14.parse_agrees_reference", "Mhd.C14.reference_returns_parse_tree",
+                         "Mhd.C14.digest_accepts_beyond_grammar_witness",
+                         "Mhd.C14.info_block_layout", "Mhd.C14.username_block_layout", "Mhd.C14.uname_type_exact",
+                         "Mhd.C14.digest_api_first_matching_header", "Mhd.C14.digest_api_no_header",
+                         "Mhd.C14.basic_api_first_matching_header", "Mhd.C14.basic_api_no_header", "Mhd.C14.api_single_header",
+                         "Mhd.C14.digest_roundtrip", "Mhd.C14.digest_rendering_invariant", "Mhd.C14.digest_roundtrip_full",
                          "Mhd.C14.algo_quoting_invariant", "Mhd.C14.qop_quoting_invariant", "Mhd.C14.userhash_quoting_invariant",
                          "Mhd.C14.digest_no_fault", "Mhd.C14.digest_fault_sites", "Mhd.C14.digest_term_irrelevant",
                          "Mhd.C14.basic_roundtrip", "Mhd.C14.basic_nocolon", "Mhd.C14.basic_invalid_base64_rejected",
@@ -889,6 +986,7 @@ class Spec:
                     "tools/props/C14.py gen_auth (if-chains of get_rq_dauth_algo/qop, tk_names[], tokens, enum values, base64 and hex "
                     "tables regenerated from the source)",
                     "grammar side lean/Mhd/Model/AuthGrammar.lean (render / renderG, view, reference tables algoSem/qopSem, base64 encoder), "
+                    "lean/Mhd/Model/AuthRef.lean (recursive-descent reference reader of the RFC 7235/7616 ABNF), "
                     "spec predicates canon / Elem.infoWf in lean/Mhd/Proofs/AuthInfo.lean, and the Python RFC 7235/7616/7617/5987 reference reader",
                     "harness/h_auth.c, gcc, ASan/UBSan"]
     assumptions = ["the header value handed to the parsers is followed in memory by one readable byte (the NUL the request parser "
@@ -958,6 +1056,14 @@ class Spec:
                 err = oracle_find(w, h)
             elif op == "bparse":
                 err = oracle_bparse(unhx(w[1]), h)
+            elif op in ("basich", "infoh"):
+                err = oracle_headers(op[0], parse_hdr_words(w[1:]), h)
+            elif op == "connm":
+                hb, _, hi = h.partition(" ; ")
+                hs = [(1, b"Authorization", unhx(x)) for x in w[1:]]
+                err = oracle_headers("b", hs, hb) or oracle_headers("i", hs, hi)
+            elif op == "layout":
+                err = oracle_layout(unhx(w[1]), h)
             if err is None and extra_oracle is not None:
                 err = extra_oracle(h)
         except Exception as ex:          # the oracle must never hide a case
@@ -966,7 +1072,7 @@ class Spec:
         oc = h.split()[0] + ("-none" if " none" in h[:12] else "")
         stats["outcomes"][op + ":" + oc] = stats["outcomes"].get(op + ":" + oc, 0) + 1
         if err:
-            failures.append(vlib.Failure("oracle", "auth %s: %s" % (op, _sig(err)), err + " | code: " + h + " | model: " + m, [line], "auth"))
+            failures.append(vlib.Failure("oracle", "auth %s: %s" % (op, _sig(err.split(" | ")[0])), err + " | code: " + h + " | model: " + m, [line], "auth"))
             return False
         if h != m:
             failures.append(vlib.Failure("diff", "auth: model/code differ on " + op, "code '%s' model '%s'" % (h, m), [line], "auth"))
@@ -976,7 +1082,7 @@ class Spec:
     def explore(self, ctx, boost):
         rng = ctx.rng
         thorough = ctx.tier == "thorough"
-        mult = (25 if thorough else 1) * (3 if boost else 1)
+        mult = (25 if thorough else 3) * (3 if boost else 1)
         failures = []
         stats = {"ops": {}, "outcomes": {}, "in_grammar": 0, "corruptions": 0, "corrupt_rejected": 0, "corrupt_changed_field": 0,
                  "corrupt_unchanged": 0, "term_none_no_read": 0, "term_none_asan_confirmed": 0, "nc_limit_waived": 0}
@@ -1026,6 +1132,31 @@ class Spec:
                 add("corruption", "dparse %s 0" % hx(t), ("corrupt", nsem, s, t, pos, spans))
                 ncor += 1
             nsem += 1
+        # 4b. the same, exhaustively over positions x corruption bytes, for short credentials whose quoted values
+        #     contain text that looks like a further parameter (what a re-bracketing corruption would expose)
+        for inner in (b"abX ,nonce=evil", b"ab ,uri=/evil", b"x,nc=00000009", b"a, qop=auth-int", b"q ,username=eve,"):
+            for form in (0, 1):
+                items = [(b"nonce", b'"good"'), (b"realm", b'"' + inner + b'"'), (b"nc", b"00000001" if form else b'"00000001"')]
+                if form:
+                    items = items[1:] + items[:1]
+                tspans, ts = [], bytearray()
+                for nm, body in items:
+                    if ts:
+                        ts += b", " if form else b","
+                    st = len(ts)
+                    ts += nm + b"="
+                    vst = len(ts)
+                    ts += body
+                    tspans.append((SLOT[nm], st, len(ts), vst, body[:1] == b'"'))
+                ts = bytes(ts)
+                add("corruption", "dparse %s 0" % hx(ts), ("corrupt-orig", nsem))
+                for pos in range(len(ts)):
+                    for cb in sorted(set(CORRUPT)):
+                        if cb != ts[pos]:
+                            add("corruption", "dparse %s 0" % hx(ts[:pos] + bytes([cb]) + ts[pos + 1:]),
+                                ("corrupt", nsem, ts, ts[:pos] + bytes([cb]) + ts[pos + 1:], pos, tspans))
+                            ncor += 1
+                nsem += 1
         # 5. Basic
         for v in basic_cases(rng, 2500 * mult):
             add("basic", "basic %s" % hx(v))
@@ -1067,6 +1198,65 @@ class Spec:
             v = v.strip(b" \t")
             if v and all(c not in (0, 10, 13) for c in v):
                 add("real_connection", "conn %s" % hx(v))
+
+        # 9. several request headers through both API entry points (fabricated connection; a few on a real one)
+        hstats = {"lists": 0, "two_or_more_digest_headers": 0, "first_digest_header_broken_later_one_parses": 0,
+                  "two_or_more_basic_headers": 0, "both_schemes_present": 0}
+        nm_conn = 0
+        for hs in header_list_cases(rng, sems, 700 * mult):
+            ws = []
+            for kind, nm, val in hs:
+                ws += [str(kind), hx(nm), hx(val)]
+            add("header_lists", "basich " + " ".join(ws))
+            add("header_lists", "infoh " + " ".join(ws))
+            hstats["lists"] += 1
+            dm = [v for k, n, v in hs if k == 1 and n.lower() == b"authorization" and ref_scheme(v, b"Digest") is not None]
+            bm = [v for k, n, v in hs if k == 1 and n.lower() == b"authorization" and ref_scheme(v, b"Basic") is not None]
+            hstats["two_or_more_digest_headers"] += len(dm) >= 2
+            hstats["two_or_more_basic_headers"] += len(bm) >= 2
+            if len(dm) >= 2 and ref_digest(ref_scheme(dm[0], b"Digest")) is None and \
+                    any(ref_digest(ref_scheme(x, b"Digest")) is not None for x in dm[1:]):
+                hstats["first_digest_header_broken_later_one_parses"] += 1
+            if dm and bm:
+                hstats["both_schemes_present"] += 1
+            vals = [v.strip(b" \t") for k, n, v in hs if k == 1 and n.lower() == b"authorization"]
+            if nm_conn < (120 if not thorough else 600) and 2 <= len(vals) <= 8 and \
+                    all(v and all(c not in (0, 10, 13) for c in v) for v in vals):
+                add("real_connection", "connm " + " ".join(hx(v) for v in vals)); nm_conn += 1
+        # 10. layout of the block returned by the information API
+        lstats = {"cases": 0, "userhash_odd_length": 0, "userhash_even_length": 0, "extended": 0, "empty_but_present_username": 0}
+        for sem, s_, spans in sems[: 1500 * mult]:
+            add("layout", "layout %s" % hx(b"Digest " + s_))
+            lstats["cases"] += 1
+            un = sem.get(b"username")
+            if un is not None and sem.get(b"userhash", b"").lower() == b"true":
+                lstats["userhash_odd_length" if len(un) % 2 else "userhash_even_length"] += 1
+            if b"username*" in sem and b"username" not in sem:
+                lstats["extended"] += 1
+            if un == b"":
+                lstats["empty_but_present_username"] += 1
+        for n in range(0, 12):
+            for ch in (b"a", b"g"):
+                for form in (b'username=%s', b'username="%s"', b'username="\\%s"'):
+                    if n == 0 and form != b'username="%s"':
+                        continue
+                    v = form % (ch * n)
+                    for uh in (b", userhash=true", b", userhash=\"tru\\e\"", b""):
+                        for tail in (b"", b", opaque=\"o\\\"p\", realm=r"):
+                            add("layout", "layout %s" % hx(b"Digest " + v + uh + tail))
+                            add("layout", "info %s" % hx(b"Digest " + v + uh + tail))
+                            lstats["cases"] += 1
+                            if uh:
+                                lstats["userhash_odd_length" if n % 2 else "userhash_even_length"] += 1
+                            if n == 0:
+                                lstats["empty_but_present_username"] += 1
+        q2 = b"'" + b"'"
+        for ext in (b"UTF-8'", b"UTF-8" + q2, b"UTF-8" + q2 + b"'", b"UTF-8" + q2 + b"a", b"UTF-8'en'%41", b"UTF-8" + q2 + b"%4",
+                    b"UTF-8" + q2 + b"%", b"utf-8" + q2 + b"a%20b%c3%a4", b"UTF-8'x"):
+            for uh in (b"", b", userhash=true"):
+                add("layout", "layout %s" % hx(b"Digest username*=" + ext + uh))
+                add("layout", "info %s" % hx(b"Digest username*=" + ext + uh))
+                lstats["cases"] += 1; lstats["extended"] += 1
 
         # ---- run
         evaluations = 0
@@ -1112,7 +1302,7 @@ class Spec:
                     elif extra and extra[0] == "corrupt":
                         eo = self.corruption_rule(orig.get(extra[1]), extra, stats)
                     if self.judge(line, h, m, failures, stats, eo):
-                        if w[0] in ("dparse", "info", "conn") and not h.startswith("fail") and "none" not in h[:10]:
+                        if w[0] in ("dparse", "info", "conn", "infoh", "connm", "layout") and not h.startswith("fail") and "none" not in h[:10]:
                             distinct.add(line)
                     if w[0] == "dparse" and ref_digest(unhx(w[1])) is not None:
                         stats["in_grammar"] += 1
@@ -1134,7 +1324,9 @@ class Spec:
                             "real_connection": "random, %d cases through MHD_add_connection + MHD_run" % len(streams.get("real_connection", []))},
                "ops": stats["ops"], "outcomes": stats["outcomes"],
                "in_grammar_dparse_cases": stats["in_grammar"],
-               "corruption": {k: stats[k] for k in ("corruptions", "corrupt_rejected", "corrupt_changed_field", "corrupt_unchanged")},
+               "corruption": {k: stats[k] for k in ("corruptions", "corrupt_rejected", "corrupt_changed_field", "corrupt_unchanged")}
+               | {"corrupt_still_in_grammar_judged_by_reference": stats.get("corrupt_still_in_grammar", 0)},
+               "header_lists": hstats, "layout": lstats,
                "str_len_read": {"in_grammar_strings_rejected_because_str[str_len]_was_semicolon": stats.get("f5b_nonnul_terminator_rejects_in_grammar", 0),
                                 "exact_buffer_cases_without_read": stats["term_none_no_read"],
                                 "model_fault_confirmed_by_asan": stats["term_none_asan_confirmed"]},
@@ -1171,15 +1363,14 @@ class Spec:
                     r_lo, r_hi = min(r_lo, lo), max(r_hi, hi)
                     if qform and a <= pos <= vs:
                         prevalue = True      # the opening quote may no longer stand at the value start
-            # a byte that is or becomes '"' or '\\', a separating comma that disappears, or a change between the
-            # name and the opening quote of a quoted-string value (the quote then no longer opens the value)
-            # re-brackets the rest of the string: then only the parameters rendered entirely before the
-            # corrupted item are required to keep their value
-            structural = s[pos] in (0x22, 0x5C, 0x2C) or t[pos] in (0x22, 0x5C) or prevalue
-            if structural:
-                before = {sp[0] for sp in spans[:first_item]}
-                affected = set(range(12)) - before
-                r_hi = len(s)
+            # a corrupted string that is itself a credential string of the grammar (e.g. a ',' written into an
+            # unquoted value that contains '=': a different valid header) is judged by the reference reader alone
+            # (repeated parameters: last occurrence); everything else the code accepts must leave every
+            # parameter outside the corrupted item(s) alone — no waiver for quotes, backslashes or commas
+            ref_t = ref_digest(t, dups=True)
+            if ref_t is not None:
+                stats["corrupt_still_in_grammar"] = stats.get("corrupt_still_in_grammar", 0) + 1
+                return compare_with_ref(c, ref_t)
             changed = False
             for k in range(12):
                 if k in (2, 11):
@@ -1191,13 +1382,25 @@ class Spec:
                     # the corrupted item itself may now be read as another parameter (cnonce -> ",nonce")
                     from_region = k in c["slots"] and r_lo <= c["slots"][k][1] <= r_hi
                     if k not in affected and not from_region:
-                        return "corrupting byte %d of %r changed the unrelated parameter %s: %r -> %r" % (pos, s, KNOWN[k].decode(), a, b)
-            if not structural and not (affected & {None}) and len(affected) < 12:
+                        # how did the scanner get through the re-bracketed string?  through an unquoted value of a
+                        # known parameter that contains a DQUOTE (F35), or through the unknown-element skipper
+                        via_token = any(off > 0 and t[off - 1] != 0x22 and 0x22 in t[off:off + ln]
+                                        for (_, off, ln, _q) in c["slots"].values())
+                        how = "accepted a quotation mark inside an unquoted value" if via_token else \
+                            "skipped the re-bracketed rest as an unknown element"
+                        return "corruption outside the grammar %s and changed an unrelated parameter | byte %d of %r: %s %r -> %r" % (
+                            how, pos, s, KNOWN[k].decode(), a, b)
+            if not (affected & {None}) and len(affected) < 12:
                 for f, k in (("algo", 2), ("qop", 8), ("uh", 11)):
                     if o[f] != c[f]:
                         changed = True
                         if k not in affected and not any(KNOWN[k][1:] == KNOWN[j] or KNOWN[k] == KNOWN[j][:-1] for j in affected if j is not None):
-                            return "corrupting byte %d of %r changed the unrelated field %s: %d -> %d" % (pos, s, f, o[f], c[f])
+                            via_token = any(off > 0 and t[off - 1] != 0x22 and 0x22 in t[off:off + ln]
+                                            for (_, off, ln, _q) in c["slots"].values())
+                            how = "accepted a quotation mark inside an unquoted value" if via_token else \
+                                "skipped the re-bracketed rest as an unknown element"
+                            return "corruption outside the grammar %s and changed an unrelated parameter | byte %d of %r: field %s %d -> %d" % (
+                                how, pos, s, f, o[f], c[f])
             stats["corrupt_changed_field" if changed else "corrupt_unchanged"] += 1
             return None
         return rule
